@@ -25,7 +25,7 @@ from ..core import Ctx, ExtractError, load_corpus
 
 ID = "C15"
 LEVEL = "proof"
-ENGINES = ["lean-model", "pyextract", "purediff"]
+ENGINES = ["lean-model", "pyextract", "purediff", "kopfsim"]
 LEVEL_TEXT = (
     "STRENGTH partial. Lean theorems for all handlers/causes (unbounded label maps, patterns, registries; induction over "
     "lists). FULL (unguarded): matchesMetadata_iff/matchesLabels_iff; dedup_nodup/first_kept/sublist/ids_same, "
@@ -39,7 +39,16 @@ LEVEL_TEXT = (
     "handler); subhandler_matching_invoked_fresh; invoked_sound, unmatched_never_invoked, "
     "matching_due_invoked/matching_invoked_fresh (changing registry, both directions of 'exactly' under the all-at-once "
     "lifecycle, composed with C02); stealth_exact (what a cycle does to an object nothing matches, over the model's Effect "
-    "enumeration). UNDER A NAMED GUARD (= open finding, each with a *_witness replayed from the corpus): "
+    "enumeration: since /repo 423b86f incl. the purge of the leftover progress records in the blind branch; a carried "
+    "transformation counts as a write only while it still has something to change; stealth_exact_at: the same for EVERY "
+    "variant of the code with the blind purge, i.e. with 608a57d's head block or with its rework 02af7ce), purgeIds_iff "
+    "(which records: exactly those PRESENT on the object that belong to a handler of the resource or are named as "
+    "sub-handler records by such a present record -- never an addition, never a record nobody of this registry names), "
+    "carried_fulfilled_sends_nothing (unguarded: a fulfilled carried transformation is no write to an unmatched object), "
+    "deadline_writes_nothing (30557a0/02af7ce as far as this property sees them: a deadline that is over changes nothing in "
+    "the effects), regression theorems carried_fulfilled_regression (C03-N2/C06-F9 seen from here: the matching handler was "
+    "never invoked; 608a57d: invoked at once; 02af7ce: the cycle comes back by a touch) and stealth_leftover_regression "
+    "(C03-F2 seen from here: the framework's annotations stayed on an object nothing matches). UNDER A NAMED GUARD (= open finding, each with a *_witness replayed from the corpus): "
     "match = documented reading of docs/filters.rst under OldOnlyFree (C15-F1, since /repo bd6cd41 only its residual: a "
     "non-update handler on a changing cause WITH an old state whose old state alone satisfies value=) and TokenFree (per "
     "handler AND cause: only the abuse of the private absent marker as a criterion; the callback gap C15-F2 is repaired by "
@@ -49,8 +58,18 @@ LEVEL_TEXT = (
     "the non-existent old state is not consulted by on.create/on.resume/on.delete handlers), creation_value_current_only "
     "(value= holds iff it holds on the current value, for every documented criterion), create_absent_regression; "
     "Selector.check = docs/resources.rst except the events.k8s.io exclusion (observation, docs-only) -- "
-    "selector_check_iff_partial, resource_criterion_doc_partial; the stealth clause under 'own finalizer absent, nothing "
-    "carried in (C15-F5, by design), no lingering daemon (C15-F6)' -- stealth_total_partial, stealth_partial. "
+    "selector_check_iff_partial, resource_criterion_doc_partial; the stealth clause, READ (restated after /repo 423b86f from "
+    "the property text) as 'the framework puts nothing of its own on such an object and calls nothing for it; taking its own "
+    "leftovers OFF -- the own finalizer, progress records of the resource's handlers present on the object -- is what makes "
+    "\"no annotations, no finalizer\" true': under 'no still-effective transformation carried in (C15-F5, by design), no "
+    "lingering daemon (C15-F6)' -- stealth_removals_only_partial (every effect is a removal of an own mark; the old guard 'own "
+    "finalizer absent' is gone), and with 'own finalizer absent' in addition stealth_total_partial (the cycle is exactly the "
+    "purge of purgeIds), stealth_never_handled_partial (no own record on the object: NOTHING is done), stealth_partial "
+    "(all four for every variant with the blind purge). NEW OPEN FINDING C15-F9 (introduced by 423b86f; "
+    "stealth_purge_by_name_witness; two real operators on one simulated cluster): 'own' is decided by handler id and "
+    "prefix, so an operator purges the records another deployment of the same code wrote on an object of ITS share -- the "
+    "two chase each other for ever; the two-operator oracle reads the clause literally (no request at all for an object "
+    "the operator never matched). "
     "TIE/ORACLE ONLY: invoked = selected for on.event/daemon/timer/index handlers; `when=` and callbacks' kwargs (opaque "
     "booleans); Selector notation parsing; _deduplicated's loop. 'Matched by no handler' is read as the code's prematch "
     "(object-level criteria, ignoring old=/new=/'changed'); docs/filters.rst is inconsistent about a field handler on a "
@@ -59,13 +78,21 @@ LEVEL_TEXT = (
     "_deduplicated/Selector.check/process_resource_event(+apply) are compared with the model on the criteria alphabet "
     "(thorough: the full product).")
 TIE = ("T (AST -> Lean for match/prematch/_matches_*/all four registry loops incl. ChangingRegistry's gate chain, "
-       "Selector.check, the finalizer decision / carried-patch exit / resumed-handlers filter of processing and apply's "
-       "touch decision, re-proved equal to the model) + D over the criteria alphabet (quick: sampled; thorough: full "
+       "Selector.check, the blind gate and whether it purges (423b86f), the finalizer decision / carried-patch exit and what "
+       "it returns (the if-chain of 30557a0 + 02af7ce) / resumed-handlers filter of processing.process_resource_causes, "
+       "whether process_resource_event forgets a fulfilled carried patch (608a57d: not any more) and apply's touch "
+       "decision, re-proved equal to the model; the recognised variant of processing.py is a value (Extracted.repairs) whose "
+       "flags are re-derived from the translated skeletons -- blind_purge_eq / waiting_eq / forget_eq -- and must be the "
+       "variant the theorems are named after -- repairs_known; the code before any of the repairs breaks one of them) "
+       "+ D over the criteria alphabet (quick: sampled; thorough: full "
        "product), over the documented selector notations x a resource pool, registries with plain functions and bound "
        "methods, and on real process_resource_event cycles: single events with preset residues (carried patch, resumed "
        "handlers, handlers that ask for a retry; daemon spawning/stopping stubbed) AND sequences of consecutive events on "
        "one ResourceMemories with kopf's real spawn/match/stop of daemons (invoked handlers observed by `param`, touch "
-       "patches observed); SUB-REGISTRIES: parents of every kind are run by kopf's execution.execute_handlers_once in "
+       "patches observed, the progress records taken away by the cycle's patch read back with kopf's own storage reader, "
+       "the truthiness of the returned `delays`); leftover progress records are put on the object (annotations and/or "
+       "status.kopf.progress; own, sub-handler, orphaned, foreign) or travel from cycle to cycle as kopf wrote them; "
+       "SUB-REGISTRIES: parents of every kind are run by kopf's execution.execute_handlers_once in "
        "subhandling_context, declare sub-handlers through @kopf.subhandler / kopf.register / kopf.execute(fns=[..]|{..}), "
        "and the real sub-registry (handler fields, get_handlers result, invoked functions) is compared with the "
        "declarations, the oracle and the model; the same inside whole process_resource_event cycles; _deduplicated's loop "
@@ -81,8 +108,10 @@ THEOREMS = [("Kopf.Props.C15", "Kopf.C15." + n) for n in (
     "gate_iff", "selected_on_deletion_iff", "subhandler_gate", "subhandler_selected_iff", "subhandlers_selected_iff",
     "subhandler_deletion_regression",
     "selector_check_iff_partial", "resource_criterion_doc_partial", "selector_gap_events_k8s_witness",
-    "stealth_exact", "stealth_total_partial", "stealth_partial", "stealth_carried_witness", "stealth_blocked_witness",
-    "stealth_touch_witness",
+    "stealth_exact_at", "stealth_exact", "purgeIds_iff", "stealth_removals_only_partial", "stealth_total_partial", "stealth_never_handled_partial",
+    "stealth_partial", "carried_fulfilled_sends_nothing", "deadline_writes_nothing", "stealth_carried_witness",
+    "stealth_blocked_witness", "stealth_touch_witness", "stealth_purge_by_name_witness", "carried_fulfilled_regression",
+    "stealth_leftover_regression",
 )] + [("Kopf.Props.C15_Invoked", "Kopf.C15." + n) for n in (
     "invoked_sound", "invoked_doc_partial", "unmatched_never_invoked", "matching_due_invoked", "matching_invoked_fresh",
     "subhandler_matching_invoked_fresh",
@@ -90,8 +119,9 @@ THEOREMS = [("Kopf.Props.C15", "Kopf.C15." + n) for n in (
 TIE_THEOREMS = [("Kopf.Tie.C15", "Kopf.C15.Tie." + n) for n in (
     "match_eq", "prematch_eq", "resource_eq", "subresource_eq", "subresource_nonwebhook", "when_eq", "labels_eq",
     "annotations_eq", "metadata_step_eq", "field_values_eq", "current_only_eq", "values_eq", "change_eq", "old_side_eq", "new_side_eq",
-    "sides_src_eq", "field_changes_eq", "iter_plain_eq", "requires_finalizer_eq", "dedup_key_eq", "blind_eq",
-    "finalizer_decision_eq", "release_eq", "early_exit_eq", "iter_changing_eq", "resumed_filter_eq", "apply_touch_eq",
+    "sides_src_eq", "field_changes_eq", "iter_plain_eq", "requires_finalizer_eq", "dedup_key_eq", "blind_eq", "blind_purge_eq", "repairs_known",
+    "finalizer_decision_eq", "release_eq", "early_exit_eq", "waiting_eq", "forget_eq", "iter_changing_eq", "resumed_filter_eq",
+    "apply_touch_eq",
     "selector_parts_eq", "selector_version_eq", "selector_any_eq", "selector_fn_eq", "selector_check_eq",
 )]
 RULE = ("handler declaration = labels x annotations criterion in {none, 'x', 'y', PRESENT, ABSENT, callback(is 'x')} x "
@@ -106,9 +136,18 @@ RULE = ("handler declaration = labels x annotations criterion in {none, 'x', 'y'
         "missing kind/singular), the complete grid handler kind (on.create/update/delete/resume/field through kopf.on.*) x "
         "value= in {none, ABSENT, PRESENT, 'x', callbacks} x every cause shape detect_changing_cause builds over the field "
         "alphabet (creation = no old state; update old != new, also first-seen; deletion with no / equal / differing old "
-        "state; resuming) through get_handlers, whole process_resource_event cycles (with and without a carried remaining_patch, preset "
-        "resumed_handlers, temporarily failing handlers, fields under spec/metadata/status) and 3-6-event sequences with real "
+        "state; resuming) through get_handlers, whole process_resource_event cycles (without / with a carried remaining_patch that "
+        "still changes the object / that is fulfilled already; preset resumed_handlers, temporarily failing handlers, fields under "
+        "spec/metadata/status; 35% with progress records on the object: of 1-3 registered handlers, of their sub-handlers named "
+        "in `subrefs` or orphaned, of somebody else, in annotations / status.kopf.progress / both; 20% with a consistency "
+        "deadline that is over) and 3-6-event sequences with real "
         "daemons (obeying / ignoring `stopped`) where the label comes and goes and the finalizer follows kopf's own edits; "
+        "the complete grid of the blind branch (4 handler kinds filtered out by label/when/annotation x 5 record sets x own "
+        "finalizer x event type incl. DELETED x carried modes, and the same object matching); sequences in which a handler "
+        "that needs a label asks to be retried, the label goes and comes back, and kopf's own progress annotations travel "
+        "with the object; two deployments of one registry (same handler ids) filtered to their own share by a label / an "
+        "annotation, 1-3 objects, a handler that asks to be retried: the requests of each operator per object (whole-operator "
+        "simulation); "
         "sub-registries: the complete grid parent kind (on.create/update/delete/resume[deleted=True]/field) x way of declaring "
         "(@kopf.subhandler, kopf.register, kopf.execute(fns=list), kopf.execute(fns=mapping)) x 22 cause shapes (every reason, "
         "DELETE/FREE/GONE on marked bodies, initial or not, labelled or not) x sub-handlers {no filter, labels=, when=false, "
@@ -128,9 +167,11 @@ TRUSTED = ["pyextract atom vocabularies for registries.match/prematch/_matches_*
            "boolean functions of the value; callbacks that raise or depend on kwargs are outside the model",
            "C02's theorems invoked_selected_awake and due_invoked_all_at_once (Kopf.Props.C02) are used as stated there by "
            "Kopf.Props.C15_Invoked (while C02's files are being edited that one module may fail to build)",
-           "Obj.lingering / Obj.handlerDelays / Obj.carried / Obj.resumed are inputs of the cycle model observed on the real "
-           "run (outputs of match_daemons/stop_daemons, of the handlers, of earlier cycles): daemon life cycles are C09's, "
-           "the patch content of process_changing_cause is C02's"]
+           "Obj.lingering / Obj.handlerDelays / Obj.carried / Obj.carriedOps / Obj.resumed / Obj.records are inputs of the cycle "
+           "model observed on the real run (outputs of match_daemons/stop_daemons, of the handlers, of earlier cycles; the "
+           "records on the object are read with kopf's own ProgressStorage.fetch, which also decodes the patch): daemon life "
+           "cycles are C09's, the patch content of process_changing_cause (incl. its purges: NOOP/FREE, /repo 40d09eb) is "
+           "C02's/C03's; State.purge / ProgressStorage.purge are not translated: `purgeIds` is tied to them by D only"]
 ASSUMPTIONS = ["values are JSON (strings, integers, booleans, null, lists, objects; no floats). Python's bool/int coercion under == "
                "(True == 1, False == 0) is modelled explicitly on the Lean side (J.pyEq) and compared with the real code by the "
                "tie, but it is kept out of the judged set: the oracle leaves a case undefined when its documented verdict "
@@ -149,11 +190,20 @@ ASSUMPTIONS = ["values are JSON (strings, integers, booleans, null, lists, objec
                "handler is invoked; an invoked handler matches); one-by-one/asap planning, sleeping and finished handlers are "
                "C02's/C03's; statements are id-level (two functions under one id are not told apart); for on.event / daemons / "
                "timers / indexes 'invoked = selected' is observed by the cycle tie only",
-               "stealth is proved over the model's Effect enumeration of process_resource_causes + application.apply with "
-               "consistency pre-proven (consistency_time is None) and an uninterrupted sleep; the touch is modelled for cycles "
+               "stealth is proved over the model's Effect enumeration of process_resource_event/process_resource_causes + "
+               "application.apply with consistency pre-proven (consistency_time is None) or a deadline that is over already "
+               "(both: consistency_is_achieved before the patch is looked at; a deadline in the FUTURE -- the sleep, the exit "
+               "on an accumulated patch -- is C07's/C03's) and an uninterrupted sleep; for an object nothing matches the "
+               "changing cause is dropped before consistency is looked at, so the early exit and its new delays (30557a0, "
+               "02af7ce) cannot concern it; the replaced patch_and_check answers like the API: a request (and a new "
+               "version) iff the merge-patch is non-empty or a transformation function changes the object; the touch is modelled for cycles "
                "without handling only (what process_changing_cause leaves in the patch is C02's); closed-loop server writes are "
-               "not observed (patch_and_check is replaced, the next event is given, not derived, except the own finalizer in "
-               "sequences); progress records left on an object that stopped matching while a cycle was open are C03's (F2)",
+               "not observed (patch_and_check is replaced, the next event is given, not derived, except the own finalizer and "
+               "kopf's own progress annotations in sequences); 'left untouched' is judged on what is SENT: the requests of the "
+               "cycle applied to a copy of the object; whether a leftover record is EVER removed from an object that stays "
+               "unmatched and gets no event is nobody's clause here (C03: convergence); the two-operator runs (C15-F9) use "
+               "the whole-operator simulation (harness/sim) in child processes: 2 deployments of one registry shape, 1-3 "
+               "objects, 2-8 virtual seconds",
                "Selector.__post_init__ (positional notation -> fields) is not modelled: the oracle reads the notation, the model "
                "reads the parsed fields, the tie compares both with the real check(); 'name.version.group' notations and the "
                "ambiguity resolution of Selector.select are not generated"]
@@ -286,6 +336,93 @@ RELEASE_VOCAB = _vocab({
     "finalizers.is_deletion_blocked(body=body, finalizer=finalizer)": "a.blocked",
     "list(spawning_delays) + list(changing_delays)": "a.delays",
 })
+FORGET_VOCAB = _vocab({
+    "memory.remaining_patch is not None": "a.carriedNotNone",
+    "patch.as_json_patch(body)": "a.hasOps",
+})
+WAIT_VOCAB = _vocab({
+    "consistency_time is not None": "a.timeNotNone",
+    "operator_paused is not None": "a.pausedNotNone",
+    "operator_paused.is_on()": "a.pausedOn",
+    "patch_initially_empty": "(!a.carried)",
+})
+
+
+def _exit_delay_shape(exit_body: list[ast.stmt]) -> tuple[str, bool, bool]:
+    """the body of `if consistency_is_required and not consistency_is_achieved:` → (is a delay returned besides
+    the spawning delays -- as a Lean Bool over WaitAtoms, has it a deadline branch, has it a carried-patch branch).
+    Known shapes only: `return list(spawning_delays), False` alone, or `waiting_delays = []`, one if/elif chain
+    whose arms are `pass` or `waiting_delays = [<the remaining time> | 0.]`, `return list(spawning_delays) +
+    list(waiting_delays), False`."""
+    texts = [pyextract.norm(x) for x in exit_body]
+    if texts == ["return (list(spawning_delays), False)"]:
+        return "false", False, False
+    if not (len(exit_body) == 3 and texts[0] == _ns("waiting_delays: Collection[float] = []") and isinstance(exit_body[1], ast.If)
+            and texts[2] == _ns("return list(spawning_delays) + list(waiting_delays), False")):
+        raise ExtractError("process_resource_causes: the early exit returns neither the spawning delays alone nor the "
+                           "spawning delays plus `waiting_delays` decided by one if-chain: " + " ; ".join(texts)[:300])
+    remaining = _ns("waiting_delays = [max(0., consistency_time - asyncio.get_running_loop().time())]")
+    zero = _ns("waiting_delays = [0.]")
+    tr = pyextract.BoolTranslator(WAIT_VOCAB)
+    arms: list[tuple[str, str]] = []
+    deadline = carried = False
+    node: ast.If | None = exit_body[1]
+    while node is not None:
+        arm = [pyextract.norm(x) for x in node.body]
+        test = pyextract.norm(node.test)
+        if arm == ["pass"]:
+            res = "false"
+        elif arm == [remaining] and "consistency_time is not None" in test:
+            res, deadline = "true", True
+        elif arm == [zero] and test == "not patch_initially_empty":
+            res, carried = "true", True
+        else:
+            raise ExtractError(f"process_resource_causes: unknown arm of the early exit's delay chain: if {test}: {' ; '.join(arm)}"[:300])
+        arms.append((tr.tr(node.test), res))
+        if not node.orelse:
+            node = None
+        elif len(node.orelse) == 1 and isinstance(node.orelse[0], ast.If):
+            node = node.orelse[0]
+        else:
+            raise ExtractError("process_resource_causes: the early exit's delay chain ends in an unknown else-branch")
+    lean = "false"
+    for cond, res in reversed(arms):
+        lean = f"(if {cond} then {res} else {lean})"
+    return lean, deadline, carried
+
+
+def code_variant(repo: Any) -> list[bool]:
+    """[forgetFulfilled, blindPurge, exitDeadline, exitCarried] of the code under test, read off processing.py the
+    same way `extract` does (for the driver's `C15.cycle`; Kopf.Tie.C15 checks the flags against the skeletons)"""
+    from pathlib import Path
+    ptree = pyextract.parse_file(Path(repo) / "kopf/_core/reactor/processing.py")
+    pbody = pyextract.body_without_docstring(pyextract.find_def(ptree, "process_resource_causes"))
+    blind = _find_if(pbody, lambda s: "registry._changing.prematch" in pyextract.norm(s.test), "prematch gate")
+    exits = [s for s in pbody if isinstance(s, ast.If) and s.body and isinstance(s.body[-1], ast.Return)]
+    if len(exits) != 1:
+        raise ExtractError("process_resource_causes: the consistency / carried-patch exit changed shape")
+    _, deadline, carried = _exit_delay_shape(exits[0].body)
+    ebody = pyextract.body_without_docstring(pyextract.find_def(ptree, "process_resource_event"))
+    forgets = [x for x in ebody if isinstance(x, ast.If) and "memory.remaining_patch" in pyextract.norm(x.test)]
+    return [bool(forgets), [pyextract.norm(s) for s in blind.body] == BLIND_BODY_PURGE, deadline, carried]
+
+
+def _ns(text: str) -> str:
+    """normalise a statement exactly as pyextract.norm() normalises source statements"""
+    return ast.unparse(ast.parse(text)).strip()
+
+
+BLIND_BODY_OLD = ["changing_cause = None"]
+BLIND_BODY_PURGE = [_ns(x) for x in (
+    "storage = settings.persistence.progress_storage",
+    "owned_handlers = registry._changing.get_resource_handlers(resource=resource)",
+    "state = progression.State.from_storage(body=body, storage=storage, handlers=owned_handlers)",
+    "state.purge(body=body, patch=patch, storage=storage, handlers=owned_handlers)",
+    "changing_cause = None")]
+GET_RESOURCE_HANDLERS_BODY = [_ns(x) for x in (
+    "found_handlers: list[handlers.ChangingHandler] = []",
+    "for handler in self._handlers:\n    if _matches_resource(handler, resource):\n        found_handlers.append(handler)",
+    "return list(_deduplicated(found_handlers))")]
 CHG_VOCAB = _vocab({
     "handler.id not in excluded": "(!a.excluded)",
     "handler.reason is None": "a.reasonNone",
@@ -598,9 +735,17 @@ def extract(ctx: Ctx) -> None:
     prc = pyextract.find_def(ptree, "process_resource_causes")
     pbody = pyextract.body_without_docstring(prc)
     blind = _find_if(pbody, lambda s: "registry._changing.prematch" in pyextract.norm(s.test), "prematch gate")
-    if [pyextract.norm(s) for s in blind.body] != ["changing_cause = None"] or blind.orelse:
-        raise ExtractError("process_resource_causes: the prematch gate no longer just drops the changing cause")
+    blind_body = [pyextract.norm(s) for s in blind.body]
+    if blind.orelse or blind_body not in (BLIND_BODY_OLD, BLIND_BODY_PURGE):
+        raise ExtractError("process_resource_causes: the prematch gate neither just drops the changing cause nor purges the "
+                           "owned handlers' progress records before dropping it: " + " ; ".join(blind_body)[:300])
     emit("blindCore", "BlindAtoms", pyextract.BoolTranslator(BLIND_VOCAB).tr(blind.test))
+    # /repo 423b86f: the blind branch purges the progress records of get_resource_handlers(resource) (a shape of
+    # its own, not a default: the code before the repair gives `false`, and the tie theorem blind_purge_eq fails)
+    out.append(f"def blindPurges : Bool := {'true' if blind_body == BLIND_BODY_PURGE else 'false'}\n")
+    grh = pyextract.find_def(rtree, "ChangingRegistry.get_resource_handlers")
+    if [pyextract.norm(s) for s in pyextract.body_without_docstring(grh)] != GET_RESOURCE_HANDLERS_BODY:
+        raise ExtractError("ChangingRegistry.get_resource_handlers is no longer `the handlers whose selector matches the resource, deduplicated`")
     locals_: dict[str, ast.expr] = {}
     for st in pbody:
         if isinstance(st, ast.Assign) and len(st.targets) == 1 and isinstance(st.targets[0], ast.Name) \
@@ -631,10 +776,14 @@ def extract(ctx: Ctx) -> None:
     folds = [s for s in pbody if isinstance(s, ast.Assign) and pyextract.norm(s.targets[0]) == "consistency_is_achieved"
              and "patch_initially_empty" in pyextract.norm(s.value)]
     req = [s for s in pbody if isinstance(s, ast.Assign) and pyextract.norm(s.targets[0]) == "consistency_is_required"]
-    exits = [s for s in pbody if isinstance(s, ast.If) and len(s.body) == 1 and isinstance(s.body[0], ast.Return)]
+    exits = [s for s in pbody if isinstance(s, ast.If) and s.body and isinstance(s.body[-1], ast.Return)]
     if len(folds) != 1 or len(req) != 1 or len(exits) != 1 or pyextract.norm(req[0].value) != "changing_cause is not None" \
-            or pyextract.norm(exits[0].body[0]) != "return (list(spawning_delays), False)":
+            or exits[0].orelse:
         raise ExtractError("process_resource_causes: the consistency / carried-patch exit changed shape")
+    # what the early exit returns: the spawning delays alone (before /repo 30557a0), or also a delay decided by an
+    # if/elif chain over {paused, deadline, carried patch} (30557a0; the rework of 608a57d adds the carried branch)
+    wait_lean, has_deadline, has_carried = _exit_delay_shape(exits[0].body)
+    emit("waitingExitCore", "WaitAtoms", wait_lean)
     pos = {id(s): i for i, s in enumerate(pbody)}
     pcc_call = [i for i, s in enumerate(pbody) if isinstance(s, ast.If) and any(
         isinstance(n, ast.Call) and pyextract.norm(n.func) == "process_changing_cause" for n in ast.walk(s))]
@@ -647,6 +796,28 @@ def extract(ctx: Ctx) -> None:
     n_app = sum(1 for n in ast.walk(prc) if isinstance(n, ast.Call) and pyextract.norm(n.func) == "patch.fns.append")
     if n_app != 3:
         raise ExtractError(f"process_resource_causes: {n_app} patch.fns.append sites (expected 3)")
+
+    # processing.process_resource_event: the carried patch, and (/repo 608a57d) forgetting it when it is fulfilled
+    pre = pyextract.find_def(ptree, "process_resource_event")
+    ebody = pyextract.body_without_docstring(pre)
+    start = [i for i, x in enumerate(ebody) if pyextract.norm(x) == "patch = patches.Patch(memory.remaining_patch, body=body)"]
+    if len(start) != 1:
+        raise ExtractError("process_resource_event: the cycle's patch no longer starts as Patch(memory.remaining_patch, body=body)")
+    forgets = [x for x in ebody if isinstance(x, ast.If) and "memory.remaining_patch" in pyextract.norm(x.test)]
+    if not forgets:
+        emit("forgetCarriedCore", "ForgetAtoms", "false")
+    elif (len(forgets) == 1 and ebody.index(forgets[0]) == start[0] + 1 and not forgets[0].orelse
+          and [pyextract.norm(x) for x in forgets[0].body] == ["memory.remaining_patch = None", "patch = patches.Patch(body=body)"]):
+        emit("forgetCarriedCore", "ForgetAtoms", pyextract.BoolTranslator(FORGET_VOCAB).tr(forgets[0].test))
+    else:
+        raise ExtractError("process_resource_event: memory.remaining_patch is tested in an unknown way before the cycle")
+    if sum(1 for n in ast.walk(pre) if isinstance(n, ast.Assign) and pyextract.norm(n.targets[0]) == "memory.remaining_patch") \
+            != (2 if forgets else 1):
+        raise ExtractError("process_resource_event: memory.remaining_patch is assigned at unexpected places")
+    # the variant of processing.py that was recognised (each flag is re-derived by the tie theorems from the
+    # translated skeletons: forget_eq, blind_purge_eq, waiting_eq; repairs_known: a variant the theorems cover)
+    flags = [bool(forgets), blind_body == BLIND_BODY_PURGE, has_deadline, has_carried]
+    out.append("def repairs : Repairs := ⟨" + ", ".join("true" if f else "false" for f in flags) + "⟩\n")
 
     # ChangingRegistry.iter_handlers: excluded → reason → skip chain → match (incl. /repo 345a874, 17e5c42)
     it = pyextract.find_def(rtree, "ChangingRegistry.iter_handlers")
@@ -2223,10 +2394,58 @@ def run_selectors(env: Env, rec: Rec, reqs: list, pending: list) -> None:
 # (D) whole cycles: real process_resource_event, writes observed; the stealth clause
 # =============================================================================================
 def carried_user_fn(body: Any) -> None:
-    """a handler's JSON-patch transformation (`patch.fns`) left over from a rejected patch"""
+    """a handler's JSON-patch transformation (`patch.fns`) left over from a rejected patch: it still has
+    something to change in the object (the cycle bodies never have `status.seen`)"""
+    body.setdefault("status", {})["seen"] = "carried"
 
 
-STEP_KEYS = ("label", "annotation", "field", "stored", "event", "own_finalizer", "foreign_finalizer", "marked", "carried")
+def carried_fulfilled_fn(body: Any) -> None:
+    """a carried transformation that the conflicting change has fulfilled already (an idempotent
+    "make status.s = x" on an object whose status.s is x): no JSON-patch operation on the object at hand"""
+    body.setdefault("status", {})["s"] = "x"
+
+
+CARRIED_FNS = {"ops": carried_user_fn, "fulfilled": carried_fulfilled_fn}
+CARRIED_NAMES = {f.__name__ for f in CARRIED_FNS.values()}
+
+
+def carried_mode(v: Any) -> str | None:
+    """a step's `carried`: false / true (= "ops": older corpus files) / "ops" / "fulfilled" """
+    return None if not v else ("ops" if v is True else str(v))
+
+
+STEP_KEYS = ("label", "annotation", "field", "stored", "event", "own_finalizer", "foreign_finalizer", "marked", "carried",
+             "records", "timed")
+TOUCH_ONLY = {"metadata": {"annotations": {"kopf.zalando.org/touch-dummy": None}}}
+LEFTOVER = {"started": "2020-01-01T00:00:00.000000+00:00", "retries": 1}    # a handler in the middle of its retries
+
+
+def merge_patch(doc: Any, patch: Any) -> Any:
+    """RFC 7386, written here (not kopf's): what the API server does with a merge-patch body"""
+    if not isinstance(patch, dict):
+        return json.loads(json.dumps(patch))
+    out = dict(doc) if isinstance(doc, dict) else {}
+    for k, v in patch.items():
+        if v is None:
+            out.pop(k, None)
+        else:
+            out[k] = merge_patch(out.get(k), v)
+    return out
+
+
+def only_removals(before: Any, after: Any, path: tuple = ()) -> tuple[bool, list[tuple]]:
+    """is `after` = `before` with some keys taken away (nothing added, nothing changed)? → (yes/no, the paths removed)"""
+    if isinstance(before, dict) and isinstance(after, dict):
+        if not set(after) <= set(before):
+            return False, []
+        removed = [path + (k,) for k in before if k not in after]
+        for k in after:
+            ok, sub = only_removals(before[k], after[k], path + (k,))
+            if not ok:
+                return False, []
+            removed += sub
+        return True, removed
+    return (True, []) if before == after else (False, [])
 
 
 def _cycle_handlers(rng: random.Random, *, daemons_real: bool) -> list:
@@ -2354,7 +2573,61 @@ def random_cycle_case(rng: random.Random) -> dict:
     return {"handlers": hs, "label": lv, "annotation": av, "field": nv, "stored": ov,
             "event": rng.choice(["ADDED", "MODIFIED", "MODIFIED", None, None, "DELETED"]),
             "own_finalizer": rng.random() < 0.3, "foreign_finalizer": rng.random() < 0.2,
-            "marked": rng.random() < 0.25, "stopped": [], "carried": rng.random() < 0.2, "resumed": resumed}
+            "marked": rng.random() < 0.25, "stopped": [], "carried": rng.choice([False] * 7 + ["ops", "ops", "fulfilled"]),
+            "resumed": resumed, "records": random_records(rng, hs), "timed": rng.random() < 0.2}
+
+
+def random_records(rng: random.Random, hs: list, p: float = 0.35) -> list:
+    """progress records lying on the object when the event arrives: leftovers of the registry's own handlers
+    (by position; `{"h": n}`), of their sub-handlers (named in the parent's `subrefs`, or orphaned), and of
+    somebody else (`{"id": ...}`: another operator with the same prefix, a handler that is not registered any
+    more); in the annotations, in status.kopf.progress, or in both"""
+    if rng.random() >= p:
+        return []
+    out: list = []
+    idx = [n for n, (h, _) in enumerate(hs)]
+    for n in rng.sample(idx, min(len(idx), rng.choice([1, 1, 2, 3]))):
+        subs = [f"zsub{j}" for j in range(rng.choice([0, 0, 1, 2]))]
+        where = rng.choice(["ann", "ann", "ann", "both", "status"])
+        out.append({"h": n, "subrefs": subs, "in": where})
+        for sname in subs:
+            if rng.random() < 0.8:
+                out.append({"h": n, "sub": sname, "subrefs": [], "in": where})
+    if rng.random() < 0.5:
+        out.append({"id": "zz", "subrefs": ["zz/zsub0"], "in": rng.choice(["ann", "both"])})
+        out.append({"id": "zz/zsub0", "subrefs": [], "in": "ann"})
+    if hs and rng.random() < 0.2:      # a sub-handler record whose parent's record is gone
+        out.append({"h": rng.choice(idx), "sub": "zorphan", "subrefs": [], "in": "ann"})
+    return out
+
+
+def leftover_scenarios() -> list[dict]:
+    """the blind branch, both tiers, complete: an on.update/on.create/on.delete handler that needs label lk (or
+    when=false, or a field value), an object WITHOUT the label, x {no record, own record, own + sub-handler
+    records, foreign records only, own in status only} x {no finalizer, leftover own finalizer} x event type
+    (incl. DELETED: nothing is sent) x {nothing carried, carried-and-effective, carried-and-fulfilled};
+    and the same object WITH the label (the records stay: the handler continues its retries)"""
+    out = []
+    for kind, filt in (("update", dict(l=pat(LK, "P"))), ("create", dict(w=False)), ("delete", dict(l=pat(LK, {"v": "x"}))),
+                       ("field", dict(a=pat(AK, "P")))):
+        k = DECL_KIND[kind]
+        h0 = hspec("changing", fn=0, id="h0", f=FIELD if kind == "field" else None, fnc=k["fnc"], r=k["r"], i=k["i"] or None,
+                   rf=True if kind == "delete" else None, **filt)
+        h1 = hspec("changing", fn=1, id="h1", sel="others", fnc=False, r="create")     # another resource's handler: not owned
+        for recs in ([], [{"h": 0, "subrefs": [], "in": "ann"}],
+                     [{"h": 0, "subrefs": ["zsub0", "zsub1"], "in": "both"}, {"h": 0, "sub": "zsub0", "subrefs": [], "in": "both"}],
+                     [{"id": "zz", "subrefs": ["zz/s"], "in": "ann"}, {"id": "zz/s", "subrefs": [], "in": "ann"},
+                      {"h": 1, "subrefs": [], "in": "ann"}, {"h": 0, "sub": "zorphan", "subrefs": [], "in": "ann"}],
+                     [{"h": 0, "subrefs": [], "in": "status"}]):
+            for fin, event, carried, label in ((False, "MODIFIED", False, None), (True, "MODIFIED", False, None),
+                                               (False, None, False, None), (False, "DELETED", False, None),
+                                               (False, "MODIFIED", "ops", None), (False, "MODIFIED", "fulfilled", None),
+                                               (False, "MODIFIED", False, "x")):
+                out.append({"handlers": [(h0, kind), (h1, "create")], "label": label, "annotation": None, "field": "x",
+                            "stored": "y" if kind in ("update", "field") else NOOLD, "event": event, "own_finalizer": fin,
+                            "foreign_finalizer": False, "marked": kind == "delete", "stopped": [], "carried": carried,
+                            "resumed": [], "records": recs, "timed": False})
+    return out
 
 
 def random_sequence_case(rng: random.Random) -> dict:
@@ -2370,8 +2643,39 @@ def random_sequence_case(rng: random.Random) -> dict:
         steps.append({"label": label, "annotation": rng.choice([None, None, "x"]), "field": rng.choice(VALS), "stored": rng.choice([NOOLD, "x", None]),
                       "event": "ADDED" if k == 0 else rng.choice(["MODIFIED", "MODIFIED", None]), "own_finalizer": "follow",
                       "foreign_finalizer": False, "marked": k > 2 and rng.random() < 0.15, "carried": False,
+                      "records": "follow", "timed": False,   # the progress records kopf itself wrote in the previous cycles
                       "wait": rng.choice([0, 0.01, 0.01, 0.08])})   # 0: the daemon may not even have started yet
     return {"handlers": hs, "steps": steps, "real_daemons": True, "stopped": []}
+
+
+def random_leftover_sequence(rng: random.Random) -> dict:
+    """the way leftovers come to be: a labelled object, a changing handler that needs the label and asks to be
+    retried (its progress record is written by kopf), then the label goes away while it is retrying -- the
+    records kopf wrote travel with the object (`records: follow`) -- and sometimes comes back"""
+    kind = rng.choice(["create", "update", "update", "resume"])
+    k = DECL_KIND[kind]
+    h0 = hspec("changing", fn=0, id="h0", l=pat(LK, rng.choice(["P", {"v": "x"}, {"cb": "is_x"}])), fnc=k["fnc"], r=k["r"],
+               i=k["i"] or None)
+    h0["_behave"] = "temp"
+    hs = [(h0, kind)]
+    if rng.random() < 0.4:
+        hs.append((hspec("watching", fn=1, id="h1", w=rng.choice([None, False])), "event"))
+    if rng.random() < 0.3:
+        k2 = DECL_KIND["create"]
+        h2 = hspec("changing", fn=2, id="h2", a=pat(AK, "P"), fnc=k2["fnc"], r=k2["r"])
+        h2["_behave"] = "temp"       # (never finished either: what a FINISHED handler's record does to the next cycle is C02's)
+        hs.append((h2, "create"))
+    steps = []
+    label: Any = "x"
+    for n in range(rng.randint(3, 6)):
+        if n >= 1 and rng.random() < 0.6:
+            label = None if label is not None else "x"
+        steps.append({"label": label, "annotation": rng.choice([None, None, "x"]), "field": "x",
+                      "stored": NOOLD if kind == "create" else ("y" if kind == "update" else "SAME"),
+                      "event": None if (n == 0 and kind == "resume") else ("ADDED" if n == 0 else "MODIFIED"),
+                      "own_finalizer": "follow", "foreign_finalizer": False, "marked": False, "carried": False,
+                      "records": "follow", "timed": rng.random() < 0.2, "wait": 0.002})
+    return {"handlers": hs, "steps": steps, "real_daemons": False, "stopped": []}
 
 
 async def _dmn_ignores(**_: Any) -> None:
@@ -2407,6 +2711,7 @@ async def run_cycle_case(env: Env, rec: Rec, case: dict, driver_reqs: list, pend
     memories = env.inventory.ResourceMemories()
     memobase = env.ephemera.Memo()
     own_fin = False
+    case = dict(case, _kopf_ann={})      # (a copy: the progress annotations kopf writes, for `records: follow`)
     orig = (P._detect_causes, P.process_resource_causes, P.process_changing_cause, A.patch_and_check,
             D.spawn_daemons, D.match_daemons, D.pause_daemons, D.stop_daemons)
     try:
@@ -2439,6 +2744,25 @@ async def _one_cycle(env: Env, rec: Rec, case: dict, k: int, step: dict, own_fin
         ann[AK] = step["annotation"]
     if step["stored"] not in (NOOLD, "SAME"):
         ann["kopf.zalando.org/last-handled-configuration"] = json.dumps({"spec": spec_of(step["stored"])}) + "\n"
+    # progress records on the object when the event arrives: given, or what kopf itself wrote before (`follow`)
+    pstorage = settings.persistence.progress_storage
+    ann_storage, status_storage = list(pstorage.storages)
+    status_progress: dict[str, Any] = {}
+    rec_ids: list[str] = []
+    if step.get("records") == "follow":
+        ann.update(case["_kopf_ann"])
+    else:
+        for r_ in step.get("records") or []:
+            rid = r_["id"] if "id" in r_ else hs[r_["h"]]["id"] + (("/" + r_["sub"]) if r_.get("sub") else "")
+            base = r_["id"].rsplit("/", 1)[0] if "id" in r_ else hs[r_["h"]]["id"]
+            record = dict(LEFTOVER, **({"subrefs": sorted(f"{base}/{x}" if "/" not in x else x for x in r_["subrefs"])} if r_["subrefs"] else {}))
+            rec_ids.append(rid)
+            if r_["in"] in ("ann", "both"):
+                tmp = env.patches.Patch()
+                ann_storage.store(key=rid, record=record, body=env.bodies.Body({"metadata": meta}), patch=tmp)
+                ann.update({k_: v_ for k_, v_ in tmp["metadata"]["annotations"].items() if v_ is not None})
+            if r_["in"] in ("status", "both"):
+                status_progress[rid] = record
     if ann:
         meta["annotations"] = ann
     fins = (["other.io/f"] if step["foreign_finalizer"] else []) + ([fin] if own_fin else [])
@@ -2447,6 +2771,8 @@ async def _one_cycle(env: Env, rec: Rec, case: dict, k: int, step: dict, own_fin
     if step["marked"]:
         meta["deletionTimestamp"] = "2020-01-01T00:00:00Z"
     body = {"apiVersion": "kopf.dev/v1", "kind": "KopfExample", "metadata": meta, "spec": spec_of(step["field"]), "status": {"s": "x"}}
+    if status_progress:
+        body["status"]["kopf"] = {"progress": status_progress}
     if step["stored"] == "SAME":      # the last-handled state is exactly the current essence (kopf's own builder)
         extra = (registry._watching.get_extra_fields(resource=env.resource) | registry._changing.get_extra_fields(resource=env.resource)
                  | registry._spawning.get_extra_fields(resource=env.resource))
@@ -2454,6 +2780,8 @@ async def _one_cycle(env: Env, rec: Rec, case: dict, k: int, step: dict, own_fin
         meta.setdefault("annotations", {})["kopf.zalando.org/last-handled-configuration"] = json.dumps(essence) + "\n"
     obs: dict[str, Any] = {"spawn": None, "causes": None, "patch": None, "handled": None, "delays": None, "applied": [],
                            "daemon_delays": [], "handler_delays": []}
+    applied_fns: list[list] = []
+    body_before = json.loads(json.dumps(body))
 
     def detect(**kw: Any) -> Any:
         obs["causes"] = orig[0](**kw)
@@ -2474,8 +2802,17 @@ async def _one_cycle(env: Env, rec: Rec, case: dict, k: int, step: dict, own_fin
     async def pac(**kw: Any) -> Any:
         obs["applied"].append({"patch": json.loads(json.dumps(dict(kw["patch"]), default=repr)),
                                "fns": [getattr(f, "func", f).__name__ for f in kw["patch"].fns]})
-        # like the API: a non-empty patch is applied and moves the resourceVersion; an empty one sends nothing
-        return (str(1000 + k), None) if kw["patch"] else (None, None)
+        applied_fns.append(list(kw["patch"].fns))
+        # like the API: a non-empty patch is applied and moves the resourceVersion; an empty one sends nothing -- and
+        # neither do transformation functions alone that have nothing to transform in the object (no JSON-patch
+        # operation: patching.patch_obj sends no request and returns no version)
+        sends = bool(dict(kw["patch"]))
+        if not sends and kw["patch"].fns:
+            probe = json.loads(json.dumps(body_before))
+            for f_ in kw["patch"].fns:
+                f_(probe)
+            sends = probe != body_before
+        return (str(1000 + k), None) if sends else (None, None)
 
     async def spawn(**kw: Any) -> Any:
         obs["spawn"] = [str(h.id) for h in kw["handlers"]]
@@ -2499,13 +2836,19 @@ async def _one_cycle(env: Env, rec: Rec, case: dict, k: int, step: dict, own_fin
     P._detect_causes, P.process_resource_causes, P.process_changing_cause = detect, prc, pcc
     A.patch_and_check = pac
     D.spawn_daemons, D.match_daemons, D.pause_daemons, D.stop_daemons = spawn, matchd, pause, stopd
-    carried = bool(step.get("carried", False))
+    cmode = carried_mode(step.get("carried", False))
+    carried = cmode is not None
+    carried_ops = False
+    if carried:       # does the carried function still change the object at hand? (applied to a copy, compared)
+        probe = json.loads(json.dumps(body))
+        CARRIED_FNS[cmode](probe)
+        carried_ops = probe != body_before
     preset = step.get("resumed")
     mem = None
     if carried or preset:
         mem = await memories.recall(body, noticed_by_listing=step["event"] is None, memobase=memobase)
         if carried:   # an earlier cycle's handler transformation whose JSON-patch was rejected (HTTP 422)
-            mem.remaining_patch = env.patches.Patch(fns=[carried_user_fn])
+            mem.remaining_patch = env.patches.Patch(fns=[CARRIED_FNS[cmode]])
         if preset:    # resuming handlers that already reached a final outcome here (/repo 6c4463d)
             mem.resumed_handlers.update(preset)
     known = list(memories.iter_all_memories())
@@ -2517,7 +2860,9 @@ async def _one_cycle(env: Env, rec: Rec, case: dict, k: int, step: dict, own_fin
         await P.process_resource_event(
             lifecycle=env.lifecycles.all_at_once, indexers=env.indexing.OperatorIndexers(), registry=registry, settings=settings,
             memories=memories, memobase=memobase, resource=env.resource,
-            raw_event={"type": step["event"], "object": body}, event_queue=asyncio.Queue(), no_throttling=True)
+            raw_event={"type": step["event"], "object": body}, event_queue=asyncio.Queue(), no_throttling=True,
+            # a consistency deadline that is over already (else: pre-proven consistency)
+            consistency_time=(asyncio.get_running_loop().time() - 1.0) if step.get("timed") else None)
     patch = obs["patch"]
     fns = [getattr(f, "func", f).__name__ for f in patch.fns]
     patch_dict = json.loads(json.dumps(dict(patch), default=repr))
@@ -2527,21 +2872,47 @@ async def _one_cycle(env: Env, rec: Rec, case: dict, k: int, step: dict, own_fin
     watch_called = [by_param[p]["id"] for _, p in called if by_param[p]["_cls"] == "watching"]
     changing_called = [by_param[p]["id"] for _, p in called if by_param[p]["_cls"] == "changing"]
     handled = bool(obs["handled"])
-    impl = {"carried": "carried_user_fn" in fns, "watch": sorted(watch_called), "spawn": sorted(obs["spawn"] or []),
-            "fins": [{"block_deletion": "fin+", "allow_deletion": "fin-"}.get(f, f) for f in fns if f != "carried_user_fn"],
+    # the progress records: which are on the object (kopf's own reader, both storages), which the cycle's patch
+    # takes away entirely (a record removed from one storage only still "is there")
+    def record_of(obj: dict, rid: str) -> Any:
+        return pstorage.fetch(key=rid, body=env.bodies.Body(obj))
+    own_ids = [h["id"] for h in hs if h["_cls"] == "changing"]
+    cand: set[str] = set(rec_ids) | set(own_ids)
+    grow = True
+    while grow:                                   # + the sub-handler records the records found name (`subrefs`)
+        more = {x for rid in cand for x in ((record_of(body_before, rid) or {}).get("subrefs") or [])} - cand
+        cand |= more
+        grow = bool(more)
+    present = {rid: record_of(body_before, rid) for rid in cand}
+    present = {rid: rec0 for rid, rec0 in present.items() if rec0 is not None}
+    after_patch = merge_patch(body_before, patch_dict)
+    purged = sorted(rid for rid in present if record_of(after_patch, rid) is None)
+    records_in = [[rid, sorted(present[rid].get("subrefs") or [])] for rid in sorted(present)]
+    def changes(fn_: Any) -> bool:
+        probe_ = json.loads(json.dumps(body_before))
+        fn_(probe_)
+        return probe_ != body_before
+    # a carried transformation is RE-SENT: it is in the cycle's patch and still has something to change in the object
+    resent = any(getattr(f, "func", f).__name__ in CARRIED_NAMES and changes(f) for f in patch.fns)
+    impl = {"carried": resent, "watch": sorted(watch_called), "spawn": sorted(obs["spawn"] or []),
+            "fins": [{"block_deletion": "fin+", "allow_deletion": "fin-"}.get(f, f) for f in fns if f not in CARRIED_NAMES],
             "handle": sorted(changing_called) if handled else None,
-            "touch": touched and not handled}        # (what the handling leaves in the patch is C02's: not compared)
+            "touch": touched and not handled,        # (what the handling leaves in the patch is C02's: not compared)
+            "purge": purged if not handled else [],  # (likewise: the purges of process_changing_cause are C02's/C03's)
+            "delays": bool(obs["delays"])}
     lingering, hdelays = bool(obs["daemon_delays"]), bool(obs["handler_delays"])
     rec.evaluations += 1
     cs = obs["causes"]
     rec.count("cycle: changing cause reason", "-" if cs.changing_cause is None else cs.changing_cause.reason.value)
     rec.count("cycle: writes", "none" if not patch_dict and not fns and not touched else
               "+".join(x for x, on in (("carried", impl["carried"]), ("finalizer", bool(impl["fins"])), ("patch", bool(patch_dict)), ("touch", touched)) if on))
-    rec.count("cycle: residues", f"lingering={int(lingering)} handler-delays={int(hdelays)} resumed={int(bool(pre_resumed))} carried={int(carried)}")
+    rec.count("cycle: residues", f"lingering={int(lingering)} handler-delays={int(hdelays)} resumed={int(bool(pre_resumed))} carried={cmode or 0}")
+    rec.count("cycle: progress records on the object / purged by the cycle", f"{len(present)} / {len(purged)}")
+    rec.count("cycle: consistency", "deadline over" if step.get("timed") else "pre-proven")
     rec.count("cycle: daemons", "real" if real_daemons else "stubbed")
     replay = {"kind": "cycle", "case": case, "step": k, "impl": impl, "patch": patch_dict}
 
-    # ---- the stealth clause, from the property: matched by no handler & no own finalizer → untouched
+    # ---- the stealth clause, from the property: matched by no handler → nothing of the framework's is put on it
     labels = meta.get("labels", {})
     annotations = meta.get("annotations", {})
 
@@ -2559,16 +2930,64 @@ async def _one_cycle(env: Env, rec: Rec, case: dict, k: int, step: dict, own_fin
     if all(v is not None for v in object_level):
         nobody = not any(object_level)
         rec.count("cycle: matched by no handler", nobody)
-        if nobody and not own_fin:
-            # STRICT: "Objects matched by no handler are left untouched: no annotations, no finalizer."
-            written = bool(patch_dict or fns or touched or any(a["patch"] or a["fns"] for a in obs["applied"]))
-            if written or called or obs["spawn"]:
-                only_carried = fns == ["carried_user_fn"] and not touched and not called and not obs["spawn"] and \
-                    set(json.dumps(patch_dict)) <= set(json.dumps({"metadata": {"annotations": {"kopf.zalando.org/touch-dummy": None}}}))
-                only_touch = touched and not fns and not patch_dict and not called and not obs["spawn"] and lingering
+        if nobody:
+            # "Objects matched by no handler are left untouched: no annotations, no finalizer." Judged on what is SENT
+            # (every request of the cycle applied, in order, to a copy of the object: merge-patch, then the
+            # transformation functions): nothing is called or spawned for the object, and the object afterwards is the
+            # object before MINUS marks of the framework itself -- its finalizer, progress records of this
+            # operator's handlers for this resource (and of the sub-handlers those records name) that were ON the
+            # object. Nothing added, nothing changed, nothing of anybody else removed: taking one's own leftovers
+            # off is what makes "no annotations, no finalizer" true; putting anything on is what it forbids.
+            owned = {h["id"] for h in hs if h["_cls"] == "changing" and (h["_sel"] is None or h["sel"])}
+            own_recs = {rid for rid in present if rid in owned} | \
+                {x for rid in present if rid in owned for x in (present[rid].get("subrefs") or [])}
+            allowed: set[tuple] = set()
+            for rid in own_recs:
+                allowed |= {("metadata", "annotations", k_) for k_ in ann_storage.make_keys(rid, body=env.bodies.Body(body_before))}
+                allowed.add(("status", "kopf", "progress", rid))
+            containers = (("metadata", "annotations"), ("status", "kopf"), ("status", "kopf", "progress"))
+
+            def sent(skip_fn: str | None = None, skip_touch: bool = False) -> tuple[bool, str]:
+                """the object after the cycle's requests vs. before: (conforming?, why not)"""
+                after = json.loads(json.dumps(body_before))
+                for n_, (a_, fns_) in enumerate(zip(obs["applied"], applied_fns)):
+                    if skip_touch and n_ >= 1:
+                        continue
+                    after = merge_patch(after, a_["patch"])
+                    for f_ in fns_:
+                        if getattr(f_, "func", f_).__name__ != skip_fn:
+                            f_(after)
+                fins0 = list(body_before.get("metadata", {}).get("finalizers") or [])
+                fins1 = list(after.get("metadata", {}).get("finalizers") or [])
+                if fins1 not in (fins0, [x for x in fins0 if x != fin]):
+                    return False, f"finalizers {fins0} -> {fins1}"
+                b0, b1 = json.loads(json.dumps(body_before)), after
+                for b_ in (b0, b1):
+                    b_.get("metadata", {}).pop("finalizers", None)
+                ok_, removed = only_removals(b0, b1)
+                if not ok_:
+                    return False, "something was added or changed"
+                # (containers emptied by the removals may go with them: the API drops empty annotations)
+                strays = [p_ for p_ in removed if p_ not in allowed and not (
+                    p_ in containers and all(q_ in allowed or q_ in containers for q_ in removed if q_[:len(p_)] == p_ and q_ != p_)
+                    and any(q_ in allowed for q_ in removed if q_[:len(p_)] == p_))]
+                return (not strays), f"removed although not an own progress record on the object: {strays}"
+            conforming, why = sent()
+            unchanged = conforming and all(
+                merge_patch(body_before, a_["patch"]) == body_before and not any(changes(f_) for f_ in fns_)
+                for a_, fns_ in zip(obs["applied"], applied_fns))
+            quiet = not called and not obs["spawn"]
+            rec.count("cycle: unmatched object", ("own finalizer / " if own_fin else "") + (
+                "nothing sent" if unchanged else
+                "only own marks removed" if conforming else "WRITTEN TO"))
+            if not conforming or not quiet:
+                only_carried = quiet and not touched and "carried_user_fn" in [n_ for a_ in obs["applied"][:1] for n_ in a_["fns"]] \
+                    and sent(skip_fn="carried_user_fn")[0]
+                only_touch = quiet and touched and lingering and sent(skip_touch=True)[0]
                 sig = FINDING_CARRIED if only_carried else FINDING_TOUCH if only_touch else next(
                     (s for dev, s in DEVIATIONS if any(doc_prematch(h, sts[h["_cls"]], dev) for h in hs)), None)
-                rec.oracle_fail(f"an object matched by no handler was touched: patch={patch_dict} fns={fns} touch-dummy={touched} invoked={called}",
+                rec.oracle_fail(f"an object matched by no handler was touched: patch={patch_dict} fns={fns} touch-dummy={touched} "
+                                f"invoked={called} spawned={obs['spawn']}: {why}",
                                 replay, sig or {"site": "processing.process_resource_causes", "shape": "unmatched object touched"})
     else:
         rec.count("oracle", "undefined (cycle)")
@@ -2580,9 +2999,10 @@ async def _one_cycle(env: Env, rec: Rec, case: dict, k: int, step: dict, own_fin
     def side(cls: str) -> list:
         return [lean_h(h) for h in hs if h["_cls"] == cls]
     o = {"deleted": step["event"] == "DELETED", "ongoing": bool(step["marked"]), "blocked": own_fin, "carried": carried,
-         "lingering": lingering, "hdelays": hdelays, "resumed": pre_resumed}
+         "carriedOps": carried_ops, "lingering": lingering, "hdelays": hdelays, "resumed": pre_resumed,
+         "records": records_in, "timed": bool(step.get("timed"))}
     driver_reqs.append(["C15.cycle", side("watching"), side("spawning"), side("changing"),
-                        lean_c(sts["watching"]), lean_c(sts["spawning"]), lean_c(sts["changing"]), o, pre_stopped])
+                        lean_c(sts["watching"]), lean_c(sts["spawning"]), lean_c(sts["changing"]), o, pre_stopped, VARIANT[0]])
     pending.append(("cycle effects", impl, replay))
     # ---- sub-handlers: every parent that ran declared them while running; kopf selected and invoked them
     sub_runs = split_subtrace(env.subtrace)
@@ -2606,14 +3026,148 @@ async def _one_cycle(env: Env, rec: Rec, case: dict, k: int, step: dict, own_fin
     # the own finalizer of the next event: what kopf itself queued now
     for f in impl["fins"]:
         own_fin = f == "fin+"
+    # the progress annotations of the next event (`records: follow`): what kopf itself wrote, cycle after cycle
+    if step["event"] != "DELETED":
+        keep = dict(case["_kopf_ann"]) if step.get("records") == "follow" else {}
+        for a_ in obs["applied"]:
+            for k_, v_ in ((a_["patch"].get("metadata") or {}).get("annotations") or {}).items():
+                if k_.startswith("kopf.zalando.org/") and not k_.endswith(("/last-handled-configuration", "/touch-dummy")):
+                    if v_ is None:
+                        keep.pop(k_, None)
+                    else:
+                        keep[k_] = v_
+        case["_kopf_ann"].clear()
+        case["_kopf_ann"].update(keep)
     return own_fin
+
+
+# =============================================================================================
+# (S) two operators, one cluster: the stealth clause seen from the OTHER operator (finding C15-F9)
+# =============================================================================================
+FINDING_SHARDS = {"site": "processing.process_resource_causes (blind branch)", "shape": "writes to an object it never matched",
+                  "what": "an operator patches away progress records that another operator (same handler ids, other filters) wrote"}
+
+
+def shard_cases(rng: random.Random | None, n: int) -> list[dict]:
+    """the same operator code deployed twice (same handler ids, default annotation prefix, no finalizer),
+    each deployment filtered to its own share of the objects by a label / an annotation; one object per
+    share; the handler asks to be retried `temp` times (delay `delay` s), at most `retries` times"""
+    out = [{"by": "label", "kind": "create", "delay": 1, "retries": 3, "temp": 9, "objects": ["b"], "span": 4},
+           {"by": "annotation", "kind": "update", "delay": 1, "retries": 2, "temp": 1, "objects": ["a", "b"], "span": 3}]
+    while rng is not None and len(out) < n:
+        out.append({"by": rng.choice(["label", "annotation"]), "kind": rng.choice(["create", "update"]),
+                    "delay": rng.choice([1, 2, 4]), "retries": rng.choice([2, 3]), "temp": rng.choice([1, 2, 9]),
+                    "objects": rng.choice([["b"], ["a", "b"], ["a", "b", "c"]]), "span": rng.choice([2, 3, 5])})
+    return out[:n]
+
+
+def _shards_sim(case: dict, repo: str) -> dict:
+    """(child process) the real operators on the simulated cluster; returns the PATCH requests per sender and object"""
+    import asyncio
+    import sys
+    if repo not in sys.path:
+        sys.path.insert(0, repo)
+    from harness.sim import fakeapi, runner, simloop
+    import kopf
+    from kopf._core.intents import registries
+    calls: list = []
+
+    def make_registry(shard: str) -> Any:
+        reg = registries.OperatorRegistry()
+        flt = {"labels": {"shard": shard}} if case["by"] == "label" else {"annotations": {"example.com/shard": shard}}
+        deco = {"create": kopf.on.create, "update": kopf.on.update}[case["kind"]]
+
+        @deco("kopfexamples", registry=reg, id="fn", retries=case["retries"], **flt)
+        async def fn(retry: int, name: str, **_: Any) -> None:
+            calls.append([asyncio.get_running_loop().time(), shard, name, retry])
+            if retry < case["temp"]:
+                raise kopf.TemporaryError("come back later", delay=case["delay"])
+        return reg
+
+    async def main() -> dict:
+        cluster = fakeapi.Cluster()
+        kex = fakeapi.KEX
+        shards = ["a", "b"]
+
+        def create() -> None:
+            for o in case["objects"]:
+                meta = {"labels": {"shard": o}} if case["by"] == "label" else {"annotations": {"example.com/shard": o}}
+                cluster.create_raw(kex, "ns", f"obj-{o}", {"metadata": meta, "spec": {"x": 0}})
+        ops = {sh: runner.Operator(cluster, make_registry(sh), runner.default_settings(), identity=f"op-{sh}") for sh in shards}
+        for op in ops.values():
+            await op.start(wait_ready=True)
+        await asyncio.sleep(1)
+        create()
+        await asyncio.sleep(1)
+        if case["kind"] == "update":
+            for o in case["objects"]:
+                cluster.edit(kex, "ns", f"obj-{o}", {"spec": {"x": 1}})
+        await asyncio.sleep(case["span"])
+        sent: dict = {}
+        for r in cluster.requests:
+            if r["method"] == "PATCH" and "/kopfexamples/" in r["path"]:
+                who, obj = r["who"].split("#")[0], r["path"].rsplit("/", 1)[-1]
+                sent.setdefault(who, {}).setdefault(obj, []).append(r["payload"])
+        for op in ops.values():
+            op.kill()
+        return {"sent": sent, "calls": calls}
+    return simloop.run_sim(main, wall_limit=50)
+
+
+def _shards_child(conn: Any, case: dict, repo: str) -> None:
+    try:
+        conn.send(_shards_sim(case, repo))
+    except BaseException as e:  # noqa: BLE001
+        conn.send({"error": f"{type(e).__name__}: {e}"})
+
+
+def run_shards_case(env: Env, rec: Rec, case: dict, repo: str) -> None:
+    """in a forked child (the simulation patches kopf's clock and task bookkeeping; a stall is killed)"""
+    import multiprocessing as mp
+    ctx_ = mp.get_context("fork")
+    a, b = ctx_.Pipe(duplex=False)
+    p = ctx_.Process(target=_shards_child, args=(b, case, repo), daemon=True)
+    p.start()
+    out = a.recv() if a.poll(60) else None
+    p.join(2)
+    if p.is_alive():
+        p.kill()
+    if out is None or "error" in out:
+        raise RuntimeError(f"harness: the two-operator simulation did not finish: {out}")
+    rec.evaluations += 1
+    rec.traces += 1
+    rec.count("shards: filtered by / handler kind", f"{case['by']} / on.{case['kind']}")
+    replay = {"kind": "shards", "case": case}
+    calls_by = {}
+    for _, sh, name, _ in out["calls"]:
+        calls_by[(sh, name)] = calls_by.get((sh, name), 0) + 1
+    # THE CLAUSE, literally: an object that none of an operator's handlers matches -- at no time in the run: the
+    # shard mark never changes -- is left untouched by that operator: it sends NO request for it (there is nothing of
+    # its own on that object to take off: it never put anything there), and calls nothing for it
+    bad = []
+    for sh in ("a", "b"):
+        for o in case["objects"]:
+            if o != sh:
+                n_sent = len(out["sent"].get(f"op-{sh}", {}).get(f"obj-{o}", []))
+                n_calls = calls_by.get((sh, f"obj-{o}"), 0)
+                rec.count("shards: requests of an operator for an object of the other share", "none" if not n_sent else "SOME")
+                if n_sent or n_calls:
+                    first = (out["sent"].get(f"op-{sh}", {}).get(f"obj-{o}") or [None])[0]
+                    bad.append(f"op-{sh} sent {n_sent} PATCH requests (first: {json.dumps(first)[:160]}) and made {n_calls} calls for obj-{o}")
+    rec.nontrivial.add(f"shards|{case['by']}|{case['kind']}|{len(case['objects'])}|{bool(bad)}")
+    if bad:
+        own = {k: v for k, v in calls_by.items()}
+        rec.oracle_fail("an operator wrote to an object that none of its handlers matches (it never did): " + "; ".join(bad) +
+                        f"; the owner's handler was called {sorted(own.items())} times within {case['span']} s "
+                        f"(delay={case['delay']} s, retries<={case['retries']})", replay, FINDING_SHARDS)
 
 
 def model_effects(out: Any) -> Any:
     """the model's effect list → the same abstraction as the observed one"""
     if not (isinstance(out, list) and out and out[0] == "ok"):
         return out
-    r: dict[str, Any] = {"carried": False, "watch": [], "spawn": [], "fins": [], "handle": None, "touch": False}
+    r: dict[str, Any] = {"carried": False, "watch": [], "spawn": [], "fins": [], "handle": None, "touch": False, "purge": [],
+                         "delays": None}
     for e in out[1]:
         if e[0] == "carried":
             r["carried"] = True
@@ -2627,6 +3181,10 @@ def model_effects(out: Any) -> Any:
             r["handle"] = sorted(e[1])
         elif e[0] == "touch":
             r["touch"] = True
+        elif e[0] == "purge":
+            r["purge"] = sorted(e[1])
+        elif e[0] == "delays":
+            r["delays"] = bool(e[1])
     return r
 
 
@@ -2754,12 +3312,27 @@ def run_case(env: Env, rec: Rec, data: dict, reqs: list, pending: list, drv: lea
         c = data["case"]
         c = dict(c, handlers=[tuple(x) for x in c["handlers"]])
         asyncio.run(run_cycle_case(env, rec, c, reqs, pending))
+    elif kind == "shards":
+        run_shards_case(env, rec, data["case"], REPO[0])
     else:
         raise ValueError(f"unknown case kind {kind!r}")
 
 
+REPO = ["/repo"]      # the code under test (set from ctx.repo by run/search/replay; the simulation's child imports it)
+VARIANT: list = [None]  # code_variant(REPO[0])
+
+
+def _set_repo(ctx: Ctx) -> None:
+    REPO[0] = str(ctx.repo)
+    try:
+        VARIANT[0] = code_variant(ctx.repo)
+    except ExtractError:
+        VARIANT[0] = [False, True, True, True]      # (an unknown shape: the extraction has failed already; the rework's model)
+
+
 def run(ctx: Ctx) -> None:
     import asyncio
+    _set_repo(ctx)
     env = Env()
     rec = Rec()
     rng = ctx.rng
@@ -2818,8 +3391,10 @@ def run(ctx: Ctx) -> None:
     flush(rec, drv, reqs, pending)
 
     async def cycles() -> None:
-        for case in subcycle_scenarios():
+        for case in subcycle_scenarios() + leftover_scenarios():
             await run_cycle_case(env, rec, case, reqs, pending)
+        for _ in range(ctx.budget(100, 2000)):
+            await run_cycle_case(env, rec, random_leftover_sequence(rng), reqs, pending)
         for _ in range(ctx.budget(300, 4000)):
             await run_cycle_case(env, rec, random_subcycle_case(rng), reqs, pending)
         for _ in range(ctx.budget(2000, 20000)):
@@ -2829,6 +3404,9 @@ def run(ctx: Ctx) -> None:
             await run_cycle_case(env, rec, random_sequence_case(rng), reqs, pending)
     asyncio.run(cycles())
     flush(rec, drv, reqs, pending)
+    # ---- two operators on one cluster (whole-operator simulation, in child processes)
+    for case in shard_cases(rng, ctx.budget(3, 40)):
+        run_shards_case(env, rec, case, REPO[0])
     rec.merge_into(ctx)
     ctx.extra["changing_product_size"] = N_CHANGING_PRODUCT
     ctx.extra["changing_states"] = len(sts)
@@ -2840,6 +3418,7 @@ def search(ctx: Ctx, broken: list) -> None:
     handler/state of the first disagreement."""
     import asyncio
     import multiprocessing as mp
+    _set_repo(ctx)
     env = Env()
     rec = Rec()
     for b in broken:
@@ -2875,8 +3454,10 @@ def search(ctx: Ctx, broken: list) -> None:
                 await run_subselect_case(env, rec, case, reqs, pending)
             for _ in range(8000):
                 await run_subselect_case(env, rec, random_subselect_case(rng), reqs, pending)
-            for case in subcycle_scenarios():
+            for case in subcycle_scenarios() + leftover_scenarios():
                 await run_cycle_case(env, rec, case, reqs, pending)
+            for _ in range(1500):
+                await run_cycle_case(env, rec, random_leftover_sequence(rng), reqs, pending)
             for _ in range(3000):
                 await run_cycle_case(env, rec, random_subcycle_case(rng), reqs, pending)
             for _ in range(12000):
@@ -2889,6 +3470,7 @@ def search(ctx: Ctx, broken: list) -> None:
 
 
 def replay(ctx: Ctx, data: dict) -> None:
+    _set_repo(ctx)
     env = Env()
     rec = Rec()
     drv = leanio.Driver(["C15"])
